@@ -1027,56 +1027,10 @@ func (eng *Engine) escapeInfo(fn *ssa.Function) map[*ssa.Alloc]bool {
 		return m
 	}
 	m := map[*ssa.Alloc]bool{}
-	var escapes func(v ssa.Value, seen map[ssa.Value]bool) bool
-	escapes = func(v ssa.Value, seen map[ssa.Value]bool) bool {
-		if seen[v] {
-			return false
-		}
-		seen[v] = true
-		refs := v.Referrers()
-		if refs == nil {
-			return true
-		}
-		for _, r := range *refs {
-			switch x := r.(type) {
-			case *ssa.Store:
-				if x.Val == v {
-					return true
-				}
-			case *ssa.UnOp:
-				// load
-			case *ssa.FieldAddr:
-				if escapes(x, seen) {
-					return true
-				}
-			case *ssa.IndexAddr:
-				if escapes(x, seen) {
-					return true
-				}
-			case *ssa.Slice:
-				return true
-			case *ssa.Call:
-				if !eng.argStaysStatic(&x.Call, v) {
-					return true
-				}
-			case *ssa.Defer:
-				if !eng.argStaysStatic(&x.Call, v) {
-					return true
-				}
-			case *ssa.MakeClosure:
-				// captured by reference; closure is inlined when called. If the closure itself escapes to an
-				// unknown callee the executor havocs captured cells.
-			case *ssa.DebugRef:
-			default:
-				return true
-			}
-		}
-		return false
-	}
 	for _, b := range fn.Blocks {
 		for _, ins := range b.Instrs {
 			if a, ok := ins.(*ssa.Alloc); ok {
-				if escapes(a, map[ssa.Value]bool{}) {
+				if eng.valueEscapes(a, map[ssa.Value]bool{}, 0) {
 					m[a] = true
 				}
 			}
@@ -1086,7 +1040,85 @@ func (eng *Engine) escapeInfo(fn *ssa.Function) map[*ssa.Alloc]bool {
 	return m
 }
 
-func (eng *Engine) argStaysStatic(cc *ssa.CallCommon, v ssa.Value) bool {
+// valueEscapes: can the pointer value v be stored in the heap, returned, or reach code that is not inlined?
+func (eng *Engine) valueEscapes(v ssa.Value, seen map[ssa.Value]bool, depth int) bool {
+	if seen[v] {
+		return false
+	}
+	seen[v] = true
+	if depth > 6 {
+		return true
+	}
+	refs := v.Referrers()
+	if refs == nil {
+		return true
+	}
+	for _, r := range *refs {
+		switch x := r.(type) {
+		case *ssa.Store:
+			if x.Val == v {
+				// stored into a local cell whose own address stays local: follow the loads of that cell
+				a, ok := x.Addr.(*ssa.Alloc)
+				if !ok {
+					return true
+				}
+				arefs := a.Referrers()
+				if arefs == nil {
+					return true
+				}
+				for _, ar := range *arefs {
+					switch y := ar.(type) {
+					case *ssa.Store:
+						if y.Val == a {
+							return true
+						}
+					case *ssa.UnOp:
+						if eng.valueEscapes(y, seen, depth) {
+							return true
+						}
+					case *ssa.DebugRef:
+					default:
+						return true
+					}
+				}
+			}
+		case *ssa.UnOp:
+			// load through the pointer
+		case *ssa.FieldAddr:
+			if eng.valueEscapes(x, seen, depth) {
+				return true
+			}
+		case *ssa.IndexAddr:
+			if eng.valueEscapes(x, seen, depth) {
+				return true
+			}
+		case *ssa.Slice:
+			return true
+		case *ssa.Call:
+			if !eng.argStaysStatic(&x.Call, v, depth) {
+				return true
+			}
+		case *ssa.Defer:
+			if !eng.argStaysStatic(&x.Call, v, depth) {
+				return true
+			}
+		case *ssa.MakeClosure:
+			// captured by reference; closure is inlined when called. If the closure itself escapes to an
+			// unknown callee the executor havocs captured cells.
+		case *ssa.BinOp:
+			// comparison with nil / another pointer
+			if x.Op != token.EQL && x.Op != token.NEQ {
+				return true
+			}
+		case *ssa.DebugRef:
+		default:
+			return true
+		}
+	}
+	return false
+}
+
+func (eng *Engine) argStaysStatic(cc *ssa.CallCommon, v ssa.Value, depth int) bool {
 	if cc.IsInvoke() {
 		return false
 	}
@@ -1104,10 +1136,21 @@ func (eng *Engine) argStaysStatic(cc *ssa.CallCommon, v ssa.Value) bool {
 	if sp := eng.specFor(callee); sp != nil && !sp.Inline {
 		return false
 	}
-	if eng.isModelled(callee.String()) {
+	if eng.isModelled(callee.String()) || eng.isPureExternal(callee.String()) || eng.isNoop(callee.String()) {
 		return false
 	}
-	return eng.inlinable(callee, false)
+	if !eng.inlinable(callee, false) {
+		return false
+	}
+	// inside the inlined callee the parameter must stay static as well
+	for i, a := range cc.Args {
+		if a == v {
+			if i >= len(callee.Params) || eng.valueEscapes(callee.Params[i], map[ssa.Value]bool{}, depth+1) {
+				return false
+			}
+		}
+	}
+	return true
 }
 
 type modSet struct {
@@ -1327,6 +1370,10 @@ func (eng *Engine) callWrites(ms *modSet, ne *Exec, fn *ssa.Function, cc *ssa.Ca
 	}
 	if sp := eng.specFor(callee); sp != nil {
 		if sp.Ghost {
+			return
+		}
+		if len(sp.ModPkgs) > 0 {
+			ms.all = true
 			return
 		}
 		if sp.Assume && !sp.HasModifies && !sp.Havoc {
